@@ -124,8 +124,8 @@ func concOps() []concOp {
 			sv := reflect.New(st).Elem()
 			sv.Field(0).SetInt(n)
 			// (also a count of decimals larger than any asked for before)
-			src := fmt.Sprintf("mail%d@host%d.example @w%d {{ u.k%d }} {{ s.f }} {{ {zz%d: 1, aa: 2}.aa }} {{ 7.decimal(\",\", %d) }}", n, n, n, n, n, 17+n%3000)
-			want := fmt.Sprintf("mail%d@host%d.example @w%d %d %d 2 7,%s", n, n, n, n, n, strings.Repeat("0", int(17+n%3000)))
+			src := fmt.Sprintf("mail%d@host%d.example @w%d {{ u.k%d }} {{ s.f }} {{ {zz%d: 1, aa: 2}.aa }} {{ 7.decimal(\",\", %d) }}", n, n, n, n, n, 3000+n%3000)
+			want := fmt.Sprintf("mail%d@host%d.example @w%d %d %d 2 7,%s", n, n, n, n, n, strings.Repeat("0", int(3000+n%3000)))
 			// a dump nested deeper than any before it (its text is not compared: no statement fixes it)
 			var deep any = n
 			for k := int64(0); k < 3+n/6 && k < 48; k++ {
